@@ -224,6 +224,47 @@ def snapshot(H, public_uid=True):
     return s
 
 
+def pretty(v):
+    """readable text of an fz image"""
+    try:
+        tag = v[0]
+        if tag in ("NoneType",):
+            return "None"
+        if tag in ("bool", "str", "bytes"):
+            return repr(v[1])
+        if tag == "dict":
+            return "{" + ", ".join(f"{pretty(k)}: {pretty(x)}" for k, x in v[2]) + "}"
+        if tag in ("set", "frozenset"):
+            return "{" + ", ".join(sorted(pretty(x) for x in v[1])) + "}" if v[1] else "set()"
+        if tag == "list":
+            return "[" + ", ".join(pretty(x) for x in v[1]) + "]"
+        if tag == "tuple":
+            return "(" + ", ".join(pretty(x) for x in v[1]) + ")"
+        if tag == "count":
+            return f"count({v[1]})"
+        if tag in ("callable", "obj", "repr", "ndarray", "deep", "err"):
+            return str(v)[:120]
+        return str(v[1])
+    except Exception:  # noqa
+        return str(v)[:120]
+
+
+def first_difference(a, b, path=""):
+    """(path, before, after) of the first place where two fz images differ"""
+    try:
+        if a[0] == b[0] == "dict" and [k for k, _ in a[2]] == [k for k, _ in b[2]]:
+            for (k, x), (_, y) in zip(a[2], b[2]):
+                if x != y:
+                    return first_difference(x, y, f"{path}[{pretty(k)}]")
+        if a[0] == b[0] and a[0] in ("list", "tuple") and len(a[1]) == len(b[1]):
+            for i, (x, y) in enumerate(zip(a[1], b[1])):
+                if x != y:
+                    return first_difference(x, y, f"{path}[{i}]")
+    except Exception:  # noqa
+        pass
+    return path, pretty(a)[:200], pretty(b)[:200]
+
+
 COMPONENTS = ["nodes", "edges", "members", "memberships", "node-attrs", "edge-attrs", "frozen-flag", "next-edge-id", "private-state"]
 
 
@@ -243,13 +284,15 @@ def diff(before, after):
             cls = c
             if c in ("nodes", "edges") and _order_only(before[c], after[c]):
                 cls = c[:-1] + "-order"
-            out.append((cls, f"{c}: {str(before[c])[:160]} -> {str(after[c])[:160]}"))
+            pth, x, y = first_difference(before[c], after[c])
+            out.append((cls, f"{c}{pth}: {x} -> {y}"))
     if not out and before["private-state"] != after["private-state"]:
         rb, ra = before["_raw"], after["_raw"]
         fields = [k for k in sorted(set(rb) | set(ra)) if rb.get(k) != ra.get(k)]
         for k in fields:
             kind = "attr-key-order" if _dict_order_only(rb.get(k), ra.get(k)) else "private-state"
-            out.append((kind, f"field {k}: {str(rb.get(k))[:160]} -> {str(ra.get(k))[:160]}"))
+            pth, x, y = first_difference(rb.get(k, ("NoneType", None)), ra.get(k, ("NoneType", None)))
+            out.append((kind, f"field {k}{pth}: {x} -> {y}"))
     return out
 
 
@@ -397,6 +440,7 @@ def candidates(pname, net, domain, default, env):
         "seed": [0, 1], "p": [0.5, 1.0, 0.0],
         "kind": ["uniform", "top-2", "top-bottom", "union", "min", "max"],
         "subset_types": ["all", "immediate", "empirical"], "dag": ["$dag"],
+        "theta0": ["$phase1"], "omega": ["$phase1", None],
         "k2": [1.0], "k3": [1.0], "timesteps": [5], "dt": [0.01], "n_steps": [5], "T": [0.1], "sigma": [1],
         "tol": [1e-3], "max_iter": [20], "cutoff": [5], "num_samples": [20],
         "attr": ["w", "weight", "tags", "name", "info", None], "missing": [None, 0], "name": ["w", "weight"],
@@ -450,6 +494,8 @@ def resolve(v, net, env):
             return "degree"
         if v == "$layoutfn":
             return xgi.circular_layout
+        if v == "$phase1":
+            return np.zeros((sum(1 for e in net.edges if len(net.edges.members(e)) == 2), 1)) + 0.1
         if v == "$ones":
             return np.ones(net.num_nodes)
         if v.startswith("$type:"):
